@@ -200,6 +200,27 @@ def ob_escapes():
         tok = readers.read_string_token(sc)
         if tok.data != ('a%sb' % chr(cp)).encode('utf-8'): bad.append({'cp': hex(cp), 'value': repr(tok.data)})
     out.append(res('C12/strings/utf8-text', bad, t0, 'raw non-ASCII text in a string literal is its UTF-8 encoding', ['hidc.lexer.readers.read_string_token'], domain=260))
+    # raw characters in character literals: a character literal denotes one byte -- every ASCII character (except the quote, the backslash and a
+    # line break) is its own byte, a character whose UTF-8 encoding is longer than one byte is a LexerError (README: byte-sized data type)
+    t0 = time.time(); bad = []; n = 0
+    for cp in list(range(0x20, 0x7F)) + list(range(0x80, 0x100)) + list(range(0x100, 0x800, 13)) + [0x20AC, 0x1F30E, 0x10FFFF]:
+        ch = chr(cp)
+        if ch in "'\\": continue
+        n += 1
+        sc = scan_of("'%s'" % ch)
+        try:
+            tok = readers.read_char_token(sc); got = tok.data; err = None
+        except LE as e:
+            got = None; err = str(e)
+        except Exception as e:
+            got = None; err = 'ESCAPES: ' + repr(e)
+        if cp < 0x80:
+            if got != cp: bad.append({'literal': "'%s'" % ch, 'value': got, 'documented': cp, 'err': err})
+        elif got is not None or (err or '').startswith('ESCAPES'):
+            bad.append({'literal': "'%s' (U+%04X)" % (ch, cp), 'value': got, 'documented': 'LexerError: not a single byte', 'err': err})
+        if len(bad) > 5: break
+    out.append(res('C12/chars/raw-characters', bad, t0, 'a raw character in a character literal: ASCII -> its byte; longer than one UTF-8 byte -> LexerError',
+                   ['hidc.lexer.readers.read_char_token'], domain=n))
     return out
 
 
